@@ -86,6 +86,9 @@ func pickProject(r *Rand, corpusShare int) *Project {
 		}
 	}
 	p := genValid(r.Fork())
+	for try := 0; try < 4 && !p.Valid; try++ { // the accessor engines want accepted projects
+		p = genValid(r.Fork())
+	}
 	p.Name = fmt.Sprintf("gen-%x", fnv64(string(p.Files[0].Data)))
 	return p
 }
